@@ -206,6 +206,9 @@ impl Number {
         if self.unit != rhs.unit {
             return Err("Arguments to `mod` must have matching dimensionality".to_string());
         }
+        if rhs.value == Numeric::zero() || rhs.value == Numeric::Float(0.0) {
+            return Err("Division by zero".to_string());
+        }
         Ok(Number {
             value: &self.value % &rhs.value,
             unit: self.unit.clone(),
